@@ -93,6 +93,42 @@ def run(pid, tier, replay=None):
     if acc < len(heights) - 1:
         chk.notes.append("fewer right-id candidates accepted than checkpointed heights: %d" % acc)
 
+    # (b2) model-sized table (horizon 4, checkpoints at 0/2/4 of a harness chain): competing, otherwise fully valid blocks at every
+    #      height, offered to nodes whose own head is anywhere from below the candidate to beyond the horizon
+    from checks.ledger import MODEL_CFG
+    from checks.store import cb as cbd, blk as blkd
+    for variant in range(2 if quick else 8):
+        cfg0 = sk.Cfg(horizon=-1, known={}, **MODEL_CFG)
+        sk.apply_cfg(cfg0)
+        wm = sk.World(cfg0, keys, tag=b"ck%d" % variant)
+        gm = wm.make_genesis()
+        main = {0: gm}
+        for hh in range(1, 8):
+            d = blkd(hh, hh - 1, hh, [cbd(hh, hh, cfg0.subsidy(hh))])
+            d["ts"] = 10 + hh * 2
+            main[hh] = wm.concretise(d)
+        forks = {}
+        for hh in range(1, 8):
+            d = blkd(100 + hh, hh - 1, hh, [cbd(100 + hh, hh, cfg0.subsidy(hh), k=2)])
+            d["ts"] = 10 + hh * 2 - 1
+            forks[hh] = wm.concretise(d)
+        known_m = {0: gm.hash().hex(), 2: main[2].hash().hex(), 4: main[4].hash().hex()}
+        cfgm = sk.Cfg(horizon=4, known=known_m, **MODEL_CFG)
+        sk.apply_cfg(cfgm)
+        known_alias_m = {hh: wm.balias(bytes.fromhex(v)) for hh, v in known_m.items()}
+        rec = ledger_drv.Recorder(wm, 7000 + variant, full=False, snapshots=False)
+        rec.start(gm)
+        order = list(range(1, 8))
+        for L in order:
+            rec.add(main[L], main[L].timestamp + 3, validated=True, label={"main": L})
+            hs = list(range(1, L + 2)) if variant % 2 == 0 else rng.sample(range(1, L + 2), min(3, L + 1))
+            for hh in hs:
+                if hh in forks:
+                    rec.add(forks[hh], forks[hh].timestamp + 30, validated=True, label={"fork_at": hh, "head_height": L})
+                    chk.case(("fork", variant, L, hh), nontrivial=True)
+        judge(chk, [rec.trace()], [rec], cfgm, {pid}, known=known_alias_m)
+        chk.sample({"source": "model-sized checkpoints: competing blocks vs head height", "steps": rec.abstract[:10]})
+
     # (c) recorded real blocks, real scrypt, nothing patched but the horizon
     cfg2 = sk.Cfg(horizon=-1, known={}, stub_scrypt=False, **real)
     sk.apply_cfg(cfg2)
